@@ -358,7 +358,15 @@ impl fmt::Display for IterableKind {
     fn fmt(&self, f: &mut fmt::Formatter<'_>) -> fmt::Result {
         //TODO should i turn this into a self.to_primitive_set()  and then iterate and stringify?
         let s = match self {
-            IterableKind::Numbers(v) => format!("{:?}", v),
+            //numbers are written without an exponent and strings as they were read (the parser
+            //keeps the escapes), which is what the grammar reads back
+            IterableKind::Numbers(v) => format!(
+                "[{}]",
+                v.iter()
+                    .map(|value| value.to_string())
+                    .collect::<Vec<_>>()
+                    .join(", ")
+            ),
             IterableKind::Integers(v) => format!("{:?}", v),
             // mixed elements are printed the way they are written in source
             IterableKind::Anys(v) => format!(
@@ -369,7 +377,13 @@ impl fmt::Display for IterableKind {
                     .join(", ")
             ),
             IterableKind::PositiveIntegers(v) => format!("{:?}", v),
-            IterableKind::Strings(v) => format!("{:?}", v),
+            IterableKind::Strings(v) => format!(
+                "[{}]",
+                v.iter()
+                    .map(|value| format!("\"{}\"", value))
+                    .collect::<Vec<_>>()
+                    .join(", ")
+            ),
             IterableKind::Edges(v) => format!("{:?}", v),
             IterableKind::Nodes(v) => format!("{:?}", v),
             IterableKind::Tuples(v) => format!("{:?}", v),
